@@ -262,7 +262,53 @@ def r4_identifiers(ctx):
     ctx.check(good, "C06.R4", ini.key, "counter-starts-at-zero", "init does not insert Evaluations(0)", loc=ini.loc())
 
 
+def r5_scopes_merge_counts(ctx):
+    """a Scope whose body evaluates re-inserts its own Evaluations counter (PopulationEvaluator::init runs on the
+    child state); unless the scope's merge step adds it to the outer counter the evaluations are lost"""
+    import c16
+    from absint import Agg
+    F = ctx.facts
+    sums, fns, res, entered = c16.analyse_templates(ctx)
+    n = 0
+    for (fn, tree, full, w, final) in res:
+        if tree is None or not full:
+            continue
+        for sc in c16.scopes(tree, []):
+            leaves = c16.all_leaves(sc.children[0], [])
+            evaluating = [l for l in leaves if l.ty in sums and sums[l.ty][1].evaluates]
+            if not evaluating:
+                continue
+            n += 1
+            mf = sc.extra.get("merge_fn")
+            good = False
+            why = "no merge step"
+            key = None
+            if isinstance(mf, Agg) and mf.kind == "closure":
+                key = mf.name
+            elif isinstance(mf, tuple) and mf and mf[0] == "fn":
+                key = mf[1].get("key")
+            clo = F.fn_opt(key) if key else None
+            if clo is not None:
+                reads = [t for b, t in clo.body.calls() if t["f"].get("name") in ("get_value", "try_get_value", "borrow_value", "try_borrow_value", "take", "remove", "borrow") and (t["f"].get("gargs") or [""])[0] == EVALS
+                         and origin(clo.body.expr_of_op(t["args"][0]))[0] == ("arg", 3 if clo.kind == "Closure" else 2)]
+                incs = find_increment(clo.body, EVALS)
+                added_from_inner = False
+                for b in clo.body.normal_blocks():
+                    for st in clo.body.stmts(b):
+                        if st[0] == "=" and "*" in st[1][1]:
+                            v = clo.body.expr_of_rv(st[2])
+                            if any(x[0] == "call" and x[3]["f"].get("name") in ("get_value", "try_get_value", "borrow_value") for x in subexprs(v)):
+                                added_from_inner = True
+                good = bool(reads) and len(incs) == 1 and added_from_inner
+                why = "merge step %s: reads inner counter=%s, increments outer=%s" % (key.split("::")[-1], bool(reads), incs)
+            ctx.check(good, "C06.R5", fn.key, "scope-merges-evaluations", "a scope around %s drops the evaluations it counts (%s): the reported number of evaluations is below the objective calls made"
+                      % (sorted({l.ty.split("::")[-1] for l in evaluating}), why), detail=why, loc=fn.loc())
+    ctx.count("evaluating_scopes", n)
+    ctx.floor("C06.R5", "scopes with evaluating bodies in shipped templates", n, 2)
+
+
 def run(ctx):
+    ctx.guard("C06.R5", "scopes", lambda: r5_scopes_merge_counts(ctx))
     ctx.guard("C06.R1", "PopulationEvaluator", lambda: r1_population_evaluator(ctx))
     ctx.guard("C06.R2", "evaluators", lambda: r2_evaluators(ctx))
     ctx.guard("C06.R3", "every evaluate is counted", lambda: r3_every_evaluate_is_counted(ctx))
